@@ -44,6 +44,7 @@ type plMsg struct {
 	Ms   int64  // physical ms
 	Lg   int64  // logical part
 	Part string // partition name ("" = default)
+	Old  bool   // addressed to the earlier, dropped incarnation of the partition (another partition id, same name)
 }
 
 type plPack struct {
@@ -86,6 +87,8 @@ type plDriver struct {
 	// concurrently with the resume's StartReadCollection)
 	ResumeFromStart bool
 	AfterStop       bool
+	// OldPart: the announcement is about the earlier incarnation of the partition (its old id)
+	OldPart bool
 }
 
 type plScenario struct {
@@ -302,6 +305,9 @@ func plFinger(m msgstream.TsMsg) string {
 	return m.Type().String()
 }
 
+// oldPartID: the id the partition name had in its earlier, dropped incarnation
+func (c *plColl) oldPartID(name string) int64 { return c.partID(name) + 5000 }
+
 func (c *plColl) partID(name string) int64 {
 	if name == "" || name == "_default" {
 		return c.ID*10 + 1
@@ -377,8 +383,19 @@ func plBuildLog(c *plColl, sh *plShard, seq *int, posPChannel bool) ([]*msgstrea
 			default:
 				panic("unknown msg kind " + m.Kind)
 			}
+			kind, pid := m.Kind, c.partID(m.Part)
+			if m.Old {
+				// (dropped on both sides: the statement allows such a message to be left out, the oracle does not expect it)
+				kind, pid = m.Kind+"Old", c.oldPartID(m.Part)
+				switch x := tm.(type) {
+				case *msgstream.InsertMsg:
+					x.PartitionID = pid
+				case *msgstream.DeleteMsg:
+					x.PartitionID = pid
+				}
+			}
 			pack.Msgs = append(pack.Msgs, tm)
-			src = append(src, &plSrcMsg{ID: id, Stream: sh.SrcV, Coll: c.ID, Kind: m.Kind, Ts: ts, Part: part, PartID: c.partID(m.Part), Pack: pi, Finger: plFinger(tm)})
+			src = append(src, &plSrcMsg{ID: id, Stream: sh.SrcV, Coll: c.ID, Kind: kind, Ts: ts, Part: part, PartID: pid, Pack: pi, Finger: plFinger(tm)})
 		}
 		// the dispatcher ends every pack with the time tick that closed it
 		pack.Msgs = append(pack.Msgs, &msgstream.TimeTickMsg{
@@ -626,8 +643,12 @@ func plExecute(t *testing.T, sc *plScenario, ctl *sched.Ctl) *plRun {
 				r.inAddPart[schedGoid()] = true
 				r.announced[d.Part] = true
 				r.hmu.Unlock()
+				pid := c.partID(d.Part)
+				if d.OldPart {
+					pid = c.oldPartID(d.Part)
+				}
 				err = r.mgr.AddPartition(tctx, &model.DatabaseInfo{ID: 1, Name: c.DB}, c.info(),
-					&pb.PartitionInfo{PartitionID: c.partID(d.Part), PartitionName: d.Part, CollectionId: c.ID, PartitionCreatedTimestamp: plTs(950, 0), State: d.PartState})
+					&pb.PartitionInfo{PartitionID: pid, PartitionName: d.Part, CollectionId: c.ID, PartitionCreatedTimestamp: plTs(950, 0), State: d.PartState})
 			case "stop":
 				err = r.mgr.StopReadCollection(tctx, c.info())
 			case "resume":
